@@ -201,7 +201,10 @@ func HugeLogs(r *fw.Run) {
 		sizes = append(sizes, int64(1)<<k|int64(1)<<(k/2), (int64(1)<<k-1)&^(int64(1)<<(k/2)), int64(0x5555555555555555)>>(62-k), int64(0x2aaaaaaaaaaaaaaa)>>(62-k), 3<<(k-1)-1)
 	}
 	sizes = append(sizes, 0x5ffffffffffff, 0x207fffffffffffff, 0x1017fffffffffffe, 1<<62-1)
-	r.Bounds["virtual_huge_logs"] = fmt.Sprintf("%d sizes up to 2^62 (around every power of two, sparse and dense bit patterns), identical records", len(sizes))
+	// above 2^62 the stored-hash index of a node no longer fits in 63 bits, so nothing can be read or proved
+	// there; the checkers take sizes up to 2^63-1, and their proofs can be one hash longer (64)
+	sizes = append(sizes, 1<<62+1, 1<<62+2, 1<<62+3, 1<<62+6, 1<<62+12345, 1<<62+1<<61, 1<<62+1<<61+1<<31+5, 0x5555555555555555, 0x6aaaaaaaaaaaaaab, 1<<63-3, 1<<63-2, 1<<63-1)
+	r.Bounds["virtual_huge_logs"] = fmt.Sprintf("%d sizes up to 2^62 (around every power of two, sparse and dense bit patterns), identical records; 12 sizes between 2^62 and 2^63-1 for the checkers only", len(sizes)-12)
 	seen := map[int64]bool{}
 	for _, n := range sizes {
 		if n < 1 || seen[n] {
@@ -212,14 +215,18 @@ func HugeLogs(r *fw.Run) {
 		l.Execs++
 		l.Transitions++
 		want := mth(n)
-		got, err := tlog.TreeHash(n, rd)
+		checkOnly := n > 1<<62
+		got, err := want, error(nil)
+		if !checkOnly {
+			got, err = tlog.TreeHash(n, rd)
+		}
 		if err != nil || got != want {
 			r.Violation(fmt.Sprintf("huge:treehash:%d", n), fmt.Sprintf("TreeHash(%d) of a log of identical records = %v, %v; RFC 6962 MTH = %v", n, got, err, want), caseT{Kind: "huge", N: n})
 			continue
 		}
 		l.Nontrivial++
 		pow := int64(1) << uint(63-bits.LeadingZeros64(uint64(n))) // largest power of two <= n
-		for _, m := range []int64{0, 1, n / 2, n - 2, n - 1, pow/2 - 1, pow - 1, pow, pow + 1, pow + (n-pow)/2} {
+		for _, m := range []int64{0, 1, 2, 3, 5, 6, n / 2, n/2 + 12345, n - 3, n - 2, n - 1, pow/2 - 1, pow - 1, pow, pow + 1, pow + (n-pow)/2} {
 			if m < 0 || m >= n {
 				continue
 			}
@@ -237,11 +244,16 @@ func HugeLogs(r *fw.Run) {
 				return append(refPath(m-k, n-k), mth(k))
 			}
 			wantP := refPath(m, n)
-			p, err := tlog.ProveRecord(n, m, rd)
-			// tlog uses the RFC's order: innermost sibling first
-			same := err == nil && len(p) == len(wantP)
-			for i := 0; same && i < len(p); i++ {
-				same = p[i] == wantP[i]
+			var p tlog.RecordProof
+			var err error
+			same := true
+			if !checkOnly {
+				p, err = tlog.ProveRecord(n, m, rd)
+				// tlog uses the RFC's order: innermost sibling first
+				same = err == nil && len(p) == len(wantP)
+				for i := 0; same && i < len(p); i++ {
+					same = p[i] == wantP[i]
+				}
 			}
 			if !same {
 				r.Violation(fmt.Sprintf("huge:record:%d:%d", n, m), fmt.Sprintf("ProveRecord(%d,%d) over a log of identical records is not the RFC 6962 audit path (err=%v, %d hashes, RFC has %d)", n, m, err, len(p), len(wantP)), caseT{Kind: "huge", N: n, M: m})
@@ -277,10 +289,15 @@ func HugeLogs(r *fw.Run) {
 					return append(sub(m-k, n-k, false), mth(k))
 				}
 				wantT := sub(m, n, true)
-				tp, err := tlog.ProveTree(n, m, rd)
-				same := err == nil && len(tp) == len(wantT)
-				for i := 0; same && i < len(tp); i++ {
-					same = tp[i] == wantT[i]
+				var tp tlog.TreeProof
+				var err error
+				same := true
+				if !checkOnly {
+					tp, err = tlog.ProveTree(n, m, rd)
+					same = err == nil && len(tp) == len(wantT)
+					for i := 0; same && i < len(tp); i++ {
+						same = tp[i] == wantT[i]
+					}
 				}
 				if !same {
 					r.Violation(fmt.Sprintf("huge:tree:%d:%d", n, m), fmt.Sprintf("ProveTree(%d,%d) over a log of identical records is not the RFC 6962 consistency proof (err=%v, %d hashes, RFC has %d)", n, m, err, len(tp), len(wantT)), caseT{Kind: "huge", N: n, M: m})
